@@ -146,6 +146,19 @@ def strata(tier):
         ("route:writePotentials", _case(60, 1, 4, route="writePotentials"), 1)]
 
 
+def validate(case):
+    """cases the shrinker may propose stay inside the statement: a positive cutoff and at least two rows"""
+    try:
+        g = case.get("given", "both")
+        if (g in ("nr", "none") and case["cutoff"] != 10.0) or (g in ("cutoff", "none") and case["nr"] != 1001):
+            return False       # what is left out of [Tabulation] takes the documented default
+        if g == "cutoff_dr" and case["cutoff"] != round((case["nr"] - 1 + case["dr_fraction"]) * float(case["dr_given"]), 6):
+            return False
+        return case["cutoff"] > 0 and case["nr"] >= 2
+    except Exception:
+        return False
+
+
 def budget(tier):
     if tier == "quick":
         return {"examples": 220}
